@@ -129,8 +129,11 @@ const (
 	FConflictPause = "conflictPause"
 	FGone          = "gone"
 	FExists        = "exists"
-	FCrashBefore   = "crashBefore"
-	FCrashAfter    = "crashAfter"
+	// FExistsOther: the create answers AlreadyExists because somebody else created an object of that name in the
+	// meantime, and theirs is not the same (another writer working from an older copy): replicas and labels differ
+	FExistsOther = "existsOther"
+	FCrashBefore = "crashBefore"
+	FCrashAfter  = "crashAfter"
 )
 
 // FaultPlan maps call IDs to a fault kind.
@@ -482,6 +485,19 @@ func (w *World) react(action clienttesting.Action) (bool, runtime.Object, error)
 	case FExists:
 		if c.Verb == "create" {
 			w.apply(&Call{Verb: "create", Resource: c.Resource, Name: c.Name, Key: c.Key, NS: c.NS, Obj: c.Obj.DeepCopyObject()}, action)
+		}
+	case FExistsOther:
+		if set, ok := c.Obj.(*asv1.StatefulSet); ok && c.Verb == "create" {
+			other := set.DeepCopy()
+			r := int32(1)
+			if other.Spec.Replicas != nil {
+				r = *other.Spec.Replicas + 1
+			}
+			other.Spec.Replicas = &r
+			if len(other.Spec.Template.Spec.Containers) > 0 {
+				other.Spec.Template.Spec.Containers[0].Image += "-older"
+			}
+			w.apply(&Call{Verb: "create", Resource: c.Resource, Name: c.Name, Key: c.Key, NS: c.NS, Obj: other}, action)
 		}
 	}
 	obj, err := w.apply(c, action)
